@@ -2,7 +2,7 @@
 from . import common as C, simplex
 
 def run(ctx):
-    cov = C.proof_step(ctx, "Props/C14.v", ["Proof/PivotSound.v"])
+    cov = C.proof_step(ctx, "Props/C14.v", ["Proof/PivotSound.v", "Proof/TableauStart.v"])
     res = simplex.run_simplex(ctx, {"C14"})
     if res is None:
         return C.finish(ctx, "proof", cov, [])
